@@ -126,6 +126,15 @@ impl V {
             _ => false,
         }
     }
+    fn sanitized(&self) -> V {
+        let f = |b: &Vec<u8>| b.iter().map(|c| if *c == b'\r' || *c == b'\n' { b' ' } else { *c }).collect::<Vec<u8>>();
+        match self {
+            V::S(b) => V::S(f(b)),
+            V::E(b) => V::E(f(b)),
+            V::A(a) => V::A(a.iter().map(|v| v.sanitized()).collect()),
+            v => v.clone(),
+        }
+    }
     fn depth(&self) -> usize {
         match self {
             V::A(a) => 1 + a.iter().map(|v| v.depth()).max().unwrap_or(0),
@@ -160,6 +169,18 @@ impl Obs {
     pub fn line(&self) -> String {
         let b: Vec<String> = self.bigs.iter().map(|x| x.to_string()).collect();
         format!("{} big=[{}]", self.text, b.join(","))
+    }
+}
+
+fn err_class(e: &str) -> &'static str {
+    if e.starts_with("Unknown RESP type") {
+        "err:unknown-type"
+    } else if e == "Invalid bulk length" || e == "Invalid array length" {
+        "err:bad-len"
+    } else if e == "Nesting too deep" {
+        "err:too-deep"
+    } else {
+        "err:bad-int"
     }
 }
 
@@ -199,7 +220,7 @@ pub fn decode_here(codec: u8, input: &[u8]) -> Obs {
             }
             Ok(Err(e)) => {
                 o.kind = Kind::Error;
-                o.text = if e.starts_with("Unknown RESP type") { "err:unknown-type".into() } else { "err:bad-int".into() };
+                o.text = err_class(&e).into();
             }
         }
     } else {
@@ -222,8 +243,7 @@ pub fn decode_here(codec: u8, input: &[u8]) -> Obs {
                     "Empty input" => (Kind::Incomplete, "err:empty"),
                     "No CRLF found" => (Kind::Incomplete, "err:nocrlf"),
                     "Incomplete bulk string" => (Kind::Incomplete, "err:short"),
-                    x if x.starts_with("Unknown RESP type") => (Kind::Error, "err:unknown-type"),
-                    _ => (Kind::Error, "err:bad-int"),
+                    x => (Kind::Error, err_class(x)),
                 };
                 o.kind = k;
                 o.text = t.into();
@@ -473,7 +493,7 @@ fn feed_real(codec: u8, chunks: &[&[u8]]) -> (Vec<String>, usize, bool) {
                     }
                     Ok(Ok(None)) => break,
                     Ok(Err(e)) => {
-                        frames.push(format!("ERR:{}", if e.starts_with("Unknown RESP type") { "err:unknown-type" } else { "err:bad-int" }));
+                        frames.push(format!("ERR:{}", err_class(&e)));
                         buf.clear();
                         dead = true;
                         break;
@@ -574,7 +594,12 @@ fn check_roundtrip(cx: &mut Ctx, v: &V, src: &str) {
                 Some(o) => o,
                 None => continue,
             };
-            let good = o.text == format!("ok {} {}", v.show(), bytes.len());
+            // the encoders write CR / LF inside a reply line as a space: the value on the wire
+            let wire = v.sanitized();
+            if &wire != v {
+                cx.out.count("roundtrip:line-sanitised");
+            }
+            let good = o.text == format!("ok {} {}", wire.show(), bytes.len());
             if !good {
                 let class = if v.lines_have(&|b| find(b, b"\r\n")) {
                     "crlf-in-line"
